@@ -25,7 +25,7 @@ ROOT_LINE = re.compile(r"^  calculated root hash  (\w+): (\S+) \(content\), (\S+
 
 
 def budget(tier):
-    return {"cases": 1200, "seconds": 55} if tier == "quick" else {"cases": 40000, "seconds": 600}
+    return {"cases": 8000, "seconds": 55} if tier == "quick" else {"cases": 300000, "seconds": 600}
 
 
 def _tree(rng):
